@@ -1,0 +1,135 @@
+//go:build verif
+
+package cff
+
+// Hooks for the verification harness of property C13, part C13B (assembly of
+// CFF fonts: string table, DICT contents, section wiring).  Add-only;
+// compiled only with the build tag "verif".  Thin wrappers around unexported
+// functions, nothing else.
+
+import (
+	"bytes"
+
+	"seehuhn.de/go/geom/matrix"
+	"seehuhn.de/go/postscript/funit"
+	"seehuhn.de/go/postscript/type1"
+
+	"seehuhn.de/go/sfnt/parser"
+)
+
+// VerifC13bIntern starts from a string table holding the custom strings
+// initial, calls cffStrings.lookup for every element of lookups in order and
+// returns the SIDs and the custom strings of the table afterwards.
+func VerifC13bIntern(initial []string, lookups []string) (sids []int32, data []string) {
+	ss := &cffStrings{data: append([]string(nil), initial...)}
+	sids = make([]int32, len(lookups))
+	for i, s := range lookups {
+		sids[i] = ss.lookup(s)
+	}
+	return sids, ss.data
+}
+
+// VerifC13bStringGet exposes cffStrings.get.
+func VerifC13bStringGet(data []string, sid int32) (string, error) {
+	ss := &cffStrings{data: data}
+	return ss.get(sid)
+}
+
+// VerifC13bStringsEncode exposes cffStrings.encode (the String INDEX).
+func VerifC13bStringsEncode(data []string) []byte {
+	ss := &cffStrings{data: data}
+	return ss.encode()
+}
+
+// VerifC13bEncodeDict encodes a DICT with the given entries against a string
+// table holding the custom strings initial; it returns the bytes and the
+// custom strings of the table afterwards.
+func VerifC13bEncodeDict(entries map[uint16][]interface{}, initial []string) ([]byte, []string) {
+	d := cffDict{}
+	for op, args := range entries {
+		d[dictOp(op)] = args
+	}
+	ss := &cffStrings{data: append([]string(nil), initial...)}
+	buf := d.encode(ss)
+	return buf, ss.data
+}
+
+// VerifC13bTopDict returns the encoding of the dictionary that makeTopDict
+// and setFontMatrix build for info (the Top DICT of Font.Write without the
+// offset operands), and the string table afterwards.
+func VerifC13bTopDict(info *type1.FontInfo, isCIDKeyed bool, initial []string) ([]byte, []string) {
+	d := makeTopDict(info)
+	d.setFontMatrix(opFontMatrix, info.FontMatrix, isCIDKeyed)
+	ss := &cffStrings{data: append([]string(nil), initial...)}
+	buf := d.encode(ss)
+	return buf, ss.data
+}
+
+// VerifC13bPrivateDict returns the encoding of makePrivateDict(idx, ...).
+func VerifC13bPrivateDict(f *Font, idx int, defaultWidth, nominalWidth float64) []byte {
+	d := f.makePrivateDict(idx, defaultWidth, nominalWidth)
+	return d.encode(&cffStrings{})
+}
+
+// VerifC13bFontMatrixDict returns the encoding of an otherwise empty
+// dictionary after setFontMatrix.
+func VerifC13bFontMatrixDict(fm matrix.Matrix, isCIDKeyed bool) []byte {
+	d := cffDict{}
+	d.setFontMatrix(opFontMatrix, fm, isCIDKeyed)
+	return d.encode(&cffStrings{})
+}
+
+// VerifC13bAccess decodes a DICT and applies every typed accessor to the
+// entry of operator op.
+type VerifC13bAccessResult struct {
+	Int        int32
+	Float      float64
+	String     string
+	Delta      []funit.Int16
+	PairX      int32
+	PairY      int32
+	PairOK     bool
+	FontMatrix matrix.Matrix
+}
+
+func VerifC13bAccess(buf []byte, customStrings []string, op uint16, intDefault int32, floatDefault float64, isCIDKeyed bool) (*VerifC13bAccessResult, error) {
+	ss := &cffStrings{data: append([]string(nil), customStrings...)}
+	d, err := decodeDict(buf, ss)
+	if err != nil {
+		return nil, err
+	}
+	res := &VerifC13bAccessResult{
+		Int:        d.getInt(dictOp(op), intDefault),
+		Float:      d.getFloat(dictOp(op), floatDefault),
+		String:     d.getString(dictOp(op)),
+		Delta:      d.getDeltaF16(dictOp(op)),
+		FontMatrix: d.getFontMatrix(dictOp(op), isCIDKeyed),
+	}
+	res.PairX, res.PairY, res.PairOK = d.getPair(dictOp(op))
+	return res, nil
+}
+
+// VerifC13bReadPrivate decodes a Top DICT or Font DICT and runs readPrivate
+// on it against the file contents data.
+func VerifC13bReadPrivate(dict []byte, customStrings []string, data []byte) (private *type1.PrivateDict, subrs [][]byte, defaultWidth, nominalWidth float64, err error) {
+	ss := &cffStrings{data: append([]string(nil), customStrings...)}
+	d, err := decodeDict(dict, ss)
+	if err != nil {
+		return nil, nil, 0, 0, err
+	}
+	p := parser.New(bytes.NewReader(data))
+	info, err := d.readPrivate(p, ss)
+	if err != nil {
+		return nil, nil, 0, 0, err
+	}
+	return info.private, [][]byte(info.subrs), info.defaultWidth, info.nominalWidth, nil
+}
+
+// VerifC13bExpertCode exposes the table expertEnc.
+func VerifC13bExpertCode(name string) (byte, bool) {
+	c, ok := expertEnc[name]
+	return c, ok
+}
+
+// VerifC13bNormaliseAngle exposes normaliseAngle.
+func VerifC13bNormaliseAngle(x float64) float64 { return normaliseAngle(x) }
